@@ -76,6 +76,42 @@ class Recording:
         return lines, spawns, out
 
 
+def run_samedec_chunked(rec, chunks, extra=None, child=None, env=None, timeout=120):
+    """samedec reading standard input from a PIPE written in the given chunk sizes: `chunks` = [(nbytes, pause_s), ...],
+    the last size repeated until the file is exhausted.  Odd sizes with a pause after them make the reader's read() return
+    in mid-sample, which is how a live audio source behaves."""
+    cmd = [SAMEDEC, "-r", str(rec.rate)] + (extra or [])
+    if child:
+        cmd += ["--"] + child
+    e = dict(os.environ)
+    e.pop("RUST_LOG", None)
+    if env:
+        e.update(env)
+    data = open(rec.path, "rb").read()
+    t0 = time.time()
+    with tempfile.TemporaryFile() as so, tempfile.TemporaryFile() as se:
+        p = subprocess.Popen(cmd, stdin=subprocess.PIPE, stdout=so, stderr=se, env=e)
+        pos, i, broken = 0, 0, False
+        try:
+            while pos < len(data):
+                n, pause = chunks[min(i, len(chunks) - 1)]
+                p.stdin.write(data[pos:pos + n]); p.stdin.flush()
+                pos += n; i += 1
+                if pause:
+                    time.sleep(pause)
+            p.stdin.close()
+        except (BrokenPipeError, OSError):
+            broken = True
+        try:
+            rc = p.wait(timeout=timeout); hang = False
+        except subprocess.TimeoutExpired:
+            p.kill(); rc = None; hang = True
+        so.seek(0); se.seek(0)
+        return {"rc": rc, "stdout": so.read().decode("latin1").splitlines(), "stderr": se.read().decode("latin1")[-1500:],
+                "wall": time.time() - t0, "hang": hang, "broken_pipe": broken,
+                "cmd": " ".join(cmd) + " < (pipe, chunks %s) %s" % (chunks, rec.path)}
+
+
 def run_samedec(rec, extra=None, child=None, env=None, use_stdin=False, timeout=120):
     cmd = [SAMEDEC, "-r", str(rec.rate)] + (extra or [])
     stdin = None
